@@ -135,8 +135,11 @@ struct Item {
     done_full: bool,
     /// `added` arrives after the first delta
     added_late: bool,
-    /// a second, identical `response.output_item.done` follows
+    /// a second `response.output_item.done` for the same call follows
     dup_done: bool,
+    /// how the repeat differs: 0 identical; 1 id'd first, id-less repeat (identical when the item has no id); 2 arguments presence flipped (full <-> "")
+    #[serde(default)]
+    dup_variant: u8,
 }
 
 #[derive(Debug, Clone, Serialize, Deserialize, PartialEq)]
@@ -384,6 +387,7 @@ fn resolve(tc: Tc, stateless: bool, parallel: bool, via_thread: bool, raw: Vec<R
                 done_full,
                 added_late,
                 dup_done: ri.dup_done,
+                dup_variant: (ri.oi_key % 3) as u8,
             });
         }
         let rid = format!("resp_{t}");
@@ -422,6 +426,21 @@ fn resolve(tc: Tc, stateless: bool, parallel: bool, via_thread: bool, raw: Vec<R
             order: rt.order,
             chunk_cuts: rt.chunk_cuts,
         });
+    }
+    // an id-less repeat is associated through its call id: only unambiguous when no other item of
+    // the run shares that call id
+    let mut count: BTreeMap<String, usize> = BTreeMap::new();
+    for t in &turns {
+        for it in &t.items {
+            *count.entry(it.call_id.clone()).or_default() += 1;
+        }
+    }
+    for t in turns.iter_mut() {
+        for it in t.items.iter_mut() {
+            if it.dup_variant == 1 && count.get(&it.call_id).copied().unwrap_or(0) > 1 {
+                it.dup_variant = 0;
+            }
+        }
     }
     Case {
         tc,
@@ -590,7 +609,22 @@ fn item_stream(idx: usize, it: &Item, emit_dup: bool) -> Vec<(Value, Option<usiz
         "item": fc_item(it, if it.done_full { &it.arguments } else { "" }, "completed")});
     out.push((done.clone(), Some(idx)));
     if it.dup_done && emit_dup {
-        out.push((done, None));
+        let repeat = match it.dup_variant {
+            // id'd first, id-less repeat: the repeat can only be associated through its call id, so
+            // it is the same item beyond doubt. (The other way round — an id-less item, then a
+            // repeat carrying a FRESH item id — reads as a second item sharing the call id, which
+            // is the ambiguous region this check does not judge: identical repeat instead.)
+            1 if it.item_id.is_some() => {
+                let mut other = it.clone();
+                other.item_id = None;
+                json!({"type": "response.output_item.done", "output_index": it.output_index,
+                    "item": fc_item(&other, if it.done_full { &it.arguments } else { "" }, "completed")})
+            }
+            2 => json!({"type": "response.output_item.done", "output_index": it.output_index,
+                "item": fc_item(it, if it.done_full { "" } else { &it.arguments }, "completed")}),
+            _ => done,
+        };
+        out.push((repeat, None));
     }
     out
 }
@@ -1401,6 +1435,16 @@ fn finish_classes(
     let has_dup_done = case.turns.iter().any(|t| t.items.iter().any(|i| i.dup_done));
     rep.class_if(has_dup_done, "has_duplicate_done:generated");
     rep.class_if(dup_emitted, "has_duplicate_done:emitted");
+    for t in &case.turns {
+        for i in t.items.iter().filter(|i| i.dup_done) {
+            rep.class(match (i.dup_variant, i.item_id.is_some()) {
+                (1, true) => "duplicate_done:repeat_without_item_id",
+                (1, false) => "duplicate_done:identical",
+                (2, _) => "duplicate_done:repeat_with_arguments_flipped",
+                _ => "duplicate_done:identical",
+            });
+        }
+    }
     rep.class_if(rendered.iter().any(|r| r.out_of_order), "out_of_order_output_index");
     rep.class_if(case.turns.iter().any(|t| t.items.iter().any(|i| i.item_id.is_none())), "item_without_id");
     rep.class_if(case.turns.iter().any(|t| !t.done_marker && t.http_error.is_none()), "turn_without_DONE");
